@@ -126,6 +126,11 @@ func familyBlocks() []fam {
 		}
 		ps = append(ps,
 			"$__loc__", "[$__loc__.line]",
+			// a break raised INSIDE a try body / under ? / under // is not an error: it passes the handler
+			"label $l | try (1, break $l, 2) catch \"caught-break\"", "[label $l | .[]? | try (if . == null then break $l else . end) catch \"cb\"]", "label $l | (try (break $l) catch .), 5", "[label $l | 1, (break $l)?, 2]",
+			"label $l | try (try break $l catch 1) catch 2", "label $l | (1, break $l) // 3", "label $a | label $b | try (break $a) catch 1", "[label $a | (label $b | try (1, break $a, 2) catch 8), 9]", "[label $l | try (1, break $l) catch 9 | ., 10]",
+			"[.[]? | label $l | try (., break $l, error(\"after\")) catch \"c\"]", "label $l | try error(\"x\") catch break $l", "[label $l | (1, 2) | try (if . == 2 then break $l else error(\"e\") end) catch .]", "first(try (1, error(\"x\")) catch .)", "[limit(1; try (1, 2, error(\"x\")) catch .)]",
+			"label $l | (.a? // break $l)", "[label $l | (break $l) as $x | 1]", "[label $l | reduce (1, break $l) as $x (0; . + 1)]", "label $l | [1, break $l]", "label $l | {a: (1, break $l)}", "[label $l | path(.a, break $l, .b)]", "[label $l | (.a, break $l) = 1]?",
 			"try error catch .", "error?", "[.[]? | error?]", "try error(null) catch \"n\"", "[try error(null) catch .]", "error(null) // 1", "[error(null)?, 2]", "try (error(null), 2) catch 3", "[(error(null), 2)?]",
 			"try error(\"\\(1, 2)\") catch .", "[try error(\"a\", \"b\") catch .]", "try error(error(\"in\")) catch .", "try error catch error?", "[try error(\"x\") catch error(\"y\")]?", "try (try error(\"x\") catch error(\"y\")) catch .",
 			"try (try error(\"x\") catch empty) catch \"never\"", "[try error(\"x\") catch empty]", "try error(\"x\") catch (try error(\"y\") catch [., \"z\"])", "(try error(\"x\") catch .) | ascii_upcase", "try (error(\"x\") | error(\"y\")) catch .",
